@@ -8,6 +8,7 @@
 package c10
 
 import (
+	"strings"
 	"sync"
 	"context"
 	"crypto/sha256"
@@ -276,8 +277,41 @@ func TestC10PeerPath(t *testing.T) {
 			return calls, true
 		}
 
+		boundary := rapid.IntRange(0, 3).Draw(rt, "forkBoundary") == 0 && len(cl.bn.Forks) > 1
+		var bFork fakebn.Fork
+		var bBefore []bool
+		if boundary {
+			bFork = cl.bn.Forks[rapid.IntRange(1, len(cl.bn.Forks)-1).Draw(rt, "boundaryFork")]
+			for i := 0; i < 12; i++ {
+				bBefore = append(bBefore, rapid.Bool().Draw(rt, "beforeFork"))
+			}
+		}
 		gen := func() core.SignedData {
 			d := valgen.Signed(t, k, seed)
+			if boundary {
+				// slots / epochs right at a fork activation: where an off-by-one in the signing epoch shows
+				ptr := valgen.PtrTo(d)
+				for i, l := range valgen.Uint64Leaves(ptr) {
+					before := bBefore[i%len(bBefore)]
+					switch {
+					case strings.HasSuffix(l.Path, ".Slot"):
+						x := uint64(bFork.Epoch) * cl.bn.SPE
+						if before {
+							x--
+						}
+						l.Set(x)
+					case strings.HasSuffix(l.Path, ".Epoch"):
+						x := uint64(bFork.Epoch)
+						if before && x > 0 {
+							x--
+						}
+						l.Set(x)
+					}
+				}
+				if nv, ok := valgen.Deref(ptr).(core.SignedData); ok {
+					d = nv
+				}
+			}
 			if p, ok := d.(core.VersionedSignedProposal); ok && p.Version <= 2 { // pre-merge: outside the signing flow
 				rt.Skip("pre-merge proposal")
 			}
